@@ -697,5 +697,7 @@ def monitor_inject(sh: Shadow, i: int, op: dict[str, Any], r: dict[str, Any]) ->
         observe_val(sh, i, c, key, v if not v.startswith("val ") else v[4:], how="inject")
     want = [failed] if failed else args + ["called"]
     if res != want:
-        sh.flag("C19", f"step {i}: injected call gave {res}, the explicit lookups give {want}")
+        # (a factory's product handed to the wrong caller is also C04's business: per-context singletons)
+        gen = any("=g" in a for a in want + res)
+        sh.flag("C19,C04" if gen else "C19", f"step {i}: injected call gave {res}, the explicit lookups give {want}")
     expect_events(sh, i, r, evs, c)
